@@ -143,6 +143,41 @@ func c13Jobs(thorough bool) []c13job {
 			add(v, n, none, "concurrent", bb)
 		}
 	}
+	// the 'every lane qualifies' end of the target range (v1: no trailing zero required; v2: score 0 and score 1), where
+	// early exits live; and contexts that carry a (far) deadline but are cancelled by their CancelFunc
+	budget := 100
+	if thorough {
+		budget = 420
+	}
+	for _, v := range []int{1, 2} {
+		for _, n := range []int{1, 2} {
+			for _, cancel := range []string{"never", "before", "concurrent", "reuse"} {
+				for li, low := range []float64{0, 1.0 / 16, 1.0 / 17} {
+					s := &mineScenario{Version: v, Workers: n, Pattern: make([]int, n), Cancel: cancel, TargetV1: low, TargetV2: uint64(li), Data: []byte{'l', 'o', 'w', byte(v), byte(n), byte(li), 0, 0}}
+					if v == 2 && li == 2 {
+						continue
+					}
+					s.Name = fmt.Sprintf("v%d/N=%d/low-target-%d/cancel=%s", v, n, li, cancel)
+					jobs = append(jobs, c13job{s, -1, 3, budget})
+				}
+			}
+			pats := [][]int{{-1}, {0}}
+			if n == 2 {
+				pats = [][]int{{-1, -1}, {0, -1}, {1, 1}}
+			}
+			for _, p := range pats {
+				for _, cancel := range []string{"before", "concurrent"} {
+					s, ok := c13FindData(v, n, p, len(jobs))
+					if !ok {
+						continue
+					}
+					s.Cancel, s.Ctx = cancel, "far-deadline"
+					s.Name = fmt.Sprintf("v%d/N=%d/find=%v/cancel=%s/ctx=far-deadline", v, n, p, cancel)
+					jobs = append(jobs, c13job{s, -1, 3, budget})
+				}
+			}
+		}
+	}
 	sort.SliceStable(jobs, func(i, j int) bool { return jobs[i].S.Workers > jobs[j].S.Workers })
 	return jobs
 }
